@@ -23,6 +23,12 @@ pub enum Kind {
     Ping(u8),
     /// an inbound request frame from a stub peer: 0 FindNode, 1 FindValue, 2 Put, 3 Ping, 4 Get
     Inbound(u8, u8),
+    /// the node dials another real node (any, possibly one it already knows)
+    Connect(u8),
+    /// the node dials a peer nobody has seen before (a fresh stub)
+    ConnectFresh,
+    /// a peer nobody has seen before connects to the node (accept path)
+    InboundConnect,
 }
 #[derive(Debug, Clone, Serialize, Deserialize)]
 pub struct OpSpec {
@@ -44,6 +50,9 @@ pub struct Case {
     /// seeded scheduling noise: every send/dial yields to the scheduler 0..=yields times first
     #[serde(default)]
     yields: u8,
+    /// stop() is issued on the node of operation #k at the very instant that operation starts (overrides `stop`)
+    #[serde(default)]
+    stop_with_op: Option<u8>,
 }
 
 fn key_of(k: u8, seed: u8) -> Key {
@@ -105,8 +114,15 @@ async fn run_async(c: &Case, real: bool) -> Verdict {
     settle(50).await;
     let t0 = tokio::time::Instant::now();
     let b_op = t_req * (2 * 20 + 2);
-    let stop_node = c.stop.map(|(s, _)| s as usize % n);
-    let stop_at = c.stop.map(|(_, at)| Duration::from_millis(at as u64 / div));
+    let stop = match c.stop_with_op {
+        Some(k) if !c.ops.is_empty() => {
+            let o = &c.ops[k as usize % c.ops.len()];
+            Some((o.node, o.at_ms))
+        }
+        _ => c.stop,
+    };
+    let stop_node = stop.map(|(s, _)| s as usize % n);
+    let stop_at = stop.map(|(_, at)| Duration::from_millis(at as u64 / div));
     // fault schedule
     for (i, at, m) in &c.silences {
         let hub = hub.clone();
@@ -127,8 +143,8 @@ async fn run_async(c: &Case, real: bool) -> Verdict {
     for (oi, op) in c.ops.iter().enumerate() {
         let i = op.node as usize % n;
         let at = Duration::from_millis(op.at_ms as u64 / div);
-        // operations on the node that gets stopped are only started before the stop
-        if Some(i) == stop_node && stop_at.map(|s| at >= s).unwrap_or(false) {
+        // operations on the node that gets stopped are only started before the stop or at the same instant
+        if Some(i) == stop_node && stop_at.map(|s| at > s).unwrap_or(false) {
             continue;
         }
         overlap_candidates.push((at, i));
@@ -137,6 +153,13 @@ async fn run_async(c: &Case, real: bool) -> Verdict {
         let stub = stubs[i].clone();
         let kind = op.kind.clone();
         let seed = c.id_seed;
+        let other_addr = match &op.kind {
+            Kind::Connect(j) => Some(nodes[*j as usize % n].addr),
+            _ => None,
+        };
+        // a peer nobody has seen before, for this operation only
+        let fresh_bytes = *blake3::hash(&[c.id_seed, oi as u8, 0x2f]).as_bytes();
+        let fresh_addr = node_addr(200 + oi);
         handles.push((oi, i, at, tokio::spawn(async move {
             tokio::time::sleep(at).await;
             let started = tokio::time::Instant::now();
@@ -160,6 +183,22 @@ async fn run_async(c: &Case, real: bool) -> Verdict {
                         let _ = node.mgr.ping(&p).await;
                     }
                     "ping"
+                }
+                Kind::Connect(_) => {
+                    if let Some(a) = other_addr {
+                        let _ = node.th.connect_peer(&a.to_string()).await;
+                    }
+                    "connect"
+                }
+                Kind::ConnectFresh => {
+                    add_stub(&hub2, fresh_bytes, fresh_addr, StubScript::default());
+                    let _ = node.th.connect_peer(&fresh_addr.to_string()).await;
+                    "connect"
+                }
+                Kind::InboundConnect => {
+                    let sid = add_stub(&hub2, fresh_bytes, fresh_addr, StubScript::default());
+                    node.th.verif_accept(&sid, &fresh_addr.to_string()).await;
+                    "inbound_connect"
                 }
                 Kind::Inbound(which, k) => {
                     let payload = match which % 5 {
@@ -276,6 +315,9 @@ async fn run_async(c: &Case, real: bool) -> Verdict {
     if in_flight_at_stop {
         v.class("stop_with_operation_in_flight");
     }
+    if c.stop_with_op.is_some() {
+        v.class("stop_at_the_instant_an_operation_starts");
+    }
     if c.yields > 0 {
         v.class("seeded_yields");
     }
@@ -291,17 +333,17 @@ async fn run_async(c: &Case, real: bool) -> Verdict {
 pub fn run(run: &Run) {
     run.assume("single-threaded runtime with a paused clock: time advances only when every task is idle, so delivery order and timeouts are a function of the seed and exceeding a virtual-time bound is a decided violation; OS-thread interleavings are not explored");
     run.assume("'sends no further requests after stop' is evaluated from the moment stop() has returned and every operation started before it has resolved");
-    run.set_rule("scenario", "2..12 real nodes in a generated topology, request timeout T=2 s (virtual); 2..12 (thorough ..40) operations (lookup, put, get, ping, inbound request frames from stub peers) at seeded offsets, per-frame delays up to 1.5 T, seeded randomised yields (0..5 per send/dial) in two thirds of the cases, peers turned silent/dead at seeded instants, stop() of one node at a seeded instant; non-trivial = ≥2 operations and (a silenced peer or stop() landing while an operation of that node is in flight)");
+    run.set_rule("scenario", "2..12 real nodes in a generated topology, request timeout T=2 s (virtual); 2..12 (thorough ..40) operations (lookup, put, get, ping, inbound request frames from stub peers, dials of known and never-seen peers, inbound connections of never-seen peers) at seeded offsets, per-frame delays up to 1.5 T, seeded randomised yields (0..5 per send/dial) in two thirds of the cases, peers turned silent/dead at seeded instants, stop() of one node at a seeded instant or at the very instant one of its operations starts; non-trivial = ≥2 operations and (a silenced peer or stop() landing while an operation of that node is in flight)");
     run.max_shrink.store(120, std::sync::atomic::Ordering::Relaxed);
     let sh = shards_for(run.tier);
     let maxops = run.tier.pick(12usize, 40);
     let case = move || {
         let topo = prop_oneof![3 => Just(Topo::Mesh), 1 => Just(Topo::Ring), 1 => Just(Topo::Line), 1 => Just(Topo::Star), 1 => Just(Topo::Tree), 2 => (any::<u8>(), 30u8..200).prop_map(|(s, p)| Topo::Gnp(s, p))];
-        let kind = prop_oneof![3 => any::<u8>().prop_map(Kind::Lookup), 3 => (any::<u8>(), any::<u8>()).prop_map(|(k, l)| Kind::Put(k, l)), 3 => any::<u8>().prop_map(Kind::Get), 1 => any::<u8>().prop_map(Kind::Ping), 2 => (0u8..5, any::<u8>()).prop_map(|(w, k)| Kind::Inbound(w, k))];
+        let kind = prop_oneof![3 => any::<u8>().prop_map(Kind::Lookup), 3 => (any::<u8>(), any::<u8>()).prop_map(|(k, l)| Kind::Put(k, l)), 3 => any::<u8>().prop_map(Kind::Get), 1 => any::<u8>().prop_map(Kind::Ping), 2 => (0u8..5, any::<u8>()).prop_map(|(w, k)| Kind::Inbound(w, k)), 1 => any::<u8>().prop_map(Kind::Connect), 1 => Just(Kind::ConnectFresh), 1 => Just(Kind::InboundConnect)];
         let op = (any::<u8>(), 0u16..4000, kind).prop_map(|(node, at_ms, kind)| OpSpec { node, at_ms, kind });
         let silence = (any::<u8>(), 0u16..5000, prop_oneof![3 => Just(Mode::Silent), 1 => Just(Mode::Dead), 1 => (100u32..2500).prop_map(Mode::Slow)]);
-        (2u8..=12, topo, any::<u8>(), prop_oneof![2 => Just(0u16), 2 => 1u16..1500, 1 => 1500u16..3000], prop::collection::vec(op, 2..=maxops), prop::collection::vec(silence, 0..4), prop::option::weighted(0.7, (any::<u8>(), 0u16..5000)), prop_oneof![1 => Just(0u8), 2 => 1u8..6])
-            .prop_map(|(n, topo, id_seed, jitter_ms, ops, silences, stop, yields)| Case { n, topo, id_seed, jitter_ms, ops, silences, stop, yields })
+        (2u8..=12, topo, any::<u8>(), prop_oneof![2 => Just(0u16), 2 => 1u16..1500, 1 => 1500u16..3000], prop::collection::vec(op, 2..=maxops), prop::collection::vec(silence, 0..4), prop::option::weighted(0.7, (any::<u8>(), 0u16..5000)), prop_oneof![1 => Just(0u8), 2 => 1u8..6], prop::option::weighted(0.3, any::<u8>()))
+            .prop_map(|(n, topo, id_seed, jitter_ms, ops, silences, stop, yields, stop_with_op)| Case { n, topo, id_seed, jitter_ms, ops, silences, stop, yields, stop_with_op })
     };
     run.prop_f("scenario", run.tier.pick(4500, 50000), sh, case, run_case);
     // the same scenarios under real threads (sampled OS schedules); costs real seconds per case
